@@ -88,8 +88,17 @@ def check_lines(prog, rep):
             seen_al.setdefault(align, set()).add(form)
         # y advances by line_height() exactly once on every path
         ws = sm.writes()
-        okw = len(sm.effects) == 1 and len(ws) == 1 and match(ws[0][1], ("field", ("upvar", "_", "position"), 1)) is not None and \
-            match(fold(ws[0][2]), ("bin", "Add", ("field", ("upvar", "_", "position"), 1), ("call", "*::line_height", "_", ("?s",)))) is not None
+        # the advance is Text::line_height(self), or — where that private helper has been inlined — its body
+        # saturating_as(text_style.line_height.to_absolute(character_style.line_height()))
+        pos_y = ("field", ("upvar", "_", "position"), 1)
+        adv = None
+        if len(sm.effects) == 1 and len(ws) == 1 and match(ws[0][1], pos_y) is not None:
+            v = fold(ws[0][2])
+            m1 = match(v, ("bin", "Add", pos_y, "?adv")) or match(v, ("bin", "Add", "?adv", pos_y))
+            adv = m1["?adv"] if m1 is not None else None
+        okw = adv is not None and (match(adv, ("call", "*Text::<'a, S>::line_height", "_", ("?s",))) is not None or match(adv, ("call", "*::line_height", "_", (("upvar", "_", "self"),))) is not None
+                                   or match(adv, ("call", "*SaturatingAs>::saturating_as", "_", (("call", "*LineHeight::to_absolute", "_", (("field", ("field", ("upvar", "_", "self"), field_index(prog, TEXT, "text_style")), field_index(prog, "embedded_graphics::text::text_style::TextStyle", "line_height")),
+                                                                                                                                           ("call", "*::line_height", "_", (("field", ("upvar", "_", "self"), field_index(prog, TEXT, "character_style")),)))),))) is not None)
         if not okw:
             advance_bad.append("; ".join(show_eff(e) for e in sm.effects) or "no effect")
     for a in sorted(set(al.values())):
@@ -184,6 +193,11 @@ def check_line_height(prog, rep):
     q = ("field", ("variant", ("param", 1, "self"), "Percent"), 0)
     ok = pc is not None and match(pc, ("bin", "Div", ("bin", "Mul", ("param", 2, "base_line_height"), q), ("const", 100))) is not None
     rep.check(ok, "R15.4", "LineHeight::Percent", "Percent(q) must map to base * q / 100; found %s" % (show(pc) if pc else None), at=ta.span, fn=ta.path)
+    lhs = [f for f in prog.fns.values() if f.body and f.name == "line_height" and f.impl and prog.impls[f.impl]["self_ty"].get("adt") == TEXT and not prog.impls[f.impl].get("trait")]
+    if not lhs:
+        # the private helper is gone (inlined into lines()): R15.4 line-advance has matched its body there
+        rep.ok("R15.4", "Text::line_height", detail="no Text::line_height helper; its body is matched at the advance site")
+        return
     lh = prog.method1(TEXT, "line_height", None)
     ro = strip_refs(Origins(lh).return_origin())
     ts = field_index(prog, TEXT, "text_style")
